@@ -8,14 +8,17 @@ from measured import Dimension, Number, Unit
 
 def laws(dims, tag):
     fails, n = [], 0
+    def safe(w):
+        try: return str(w)
+        except Exception: return repr(getattr(w, "exponents", "?"))  # noqa
     def chk(name, f, *what):
         nonlocal n
         n += 1
         try:
             ok = f()
         except Exception as ex:  # noqa
-            fails.append([tag, name + "-raises"] + [str(w) for w in what] + [implib.errclass(ex)]); return
-        if not ok: fails.append([tag, name] + [str(w) for w in what])
+            fails.append([tag, name + "-raises"] + [safe(w) for w in what] + [implib.errclass(ex)]); return
+        if not ok: fails.append([tag, name] + [safe(w) for w in what])
     for a, b in itertools.product(dims, repeat=2):
         chk("comm", lambda: a * b is b * a, a, b)
         chk("div", lambda: a / b is a * b ** -1, a, b)
